@@ -5,6 +5,7 @@ mod dense;
 mod oracle;
 mod problem;
 mod solve;
+mod seams;
 mod props;
 
 fn main() {
